@@ -92,7 +92,7 @@ int main(int argc, char **argv) {
         }
         return c;
     });
-    bool ok = run_cases(a, ev, "c03-histories", a.n(40000, 600000), 100, gen, run);
+    bool ok = run_cases(a, ev, "c03-histories", a.n(120000, 1000000), 100, gen, run);
     ev.write(a.out);
     return ok ? 0 : 1;
 }
